@@ -20,7 +20,7 @@ type GenOpts struct {
 
 type pkgSpec struct{ dir, name string }
 
-var pkgPool = []pkgSpec{{"a", "a"}, {"b", "b"}, {"c", "c"}, {"n/sub", "sub"}, {"d-x", "dx"}, {"e.v", "ev"}, {"odd", "quirk"}, {"z", "z"}}
+var pkgPool = []pkgSpec{{"a", "a"}, {"b", "b"}, {"c", "c"}, {"n/sub", "sub"}, {"d-x", "dx"}, {"e.v", "ev"}, {"odd", "quirk"}, {"z", "z"}, {"v1/store", "store"}, {"v2/store", "store"}}
 
 type gen struct {
 	t          *rapid.T
@@ -37,7 +37,12 @@ func (g *gen) chance(label string, pct int) bool {
 	return rapid.IntRange(0, 99).Draw(g.t, label) < pct
 }
 func (g *gen) pick(label string, n int) int { return rapid.IntRange(0, n-1).Draw(g.t, label) }
-func (g *gen) has(cat string) bool          { return g.o.Focus == cat || g.o.Focus == "all" || g.o.Rich }
+func (g *gen) has(cat string) bool {
+	if cat == "impl" {
+		return g.o.Focus == "all"
+	}
+	return g.o.Focus == cat || g.o.Focus == "all" || g.o.Rich
+}
 
 // scope tracks variables usable as operands inside a body.
 type scope struct {
@@ -108,12 +113,41 @@ func Gen(t *rapid.T, o GenOpts) *Prog {
 	n := rapid.IntRange(o.MinPkgs, o.MaxPkgs).Draw(t, "npkgs")
 	// choose package identities
 	perm := rapid.Permutation(pkgPool).Draw(t, "pkgperm")
+	if n >= 3 && rapid.IntRange(0, 9).Draw(t, "sameNamedPkgs") < 4 {
+		// two packages that share their declared name
+		var rest []pkgSpec
+		for _, sp := range perm {
+			if sp.name != "store" {
+				rest = append(rest, sp)
+			}
+		}
+		perm = append([]pkgSpec{{"v1/store", "store"}, {"v2/store", "store"}}, rest...)
+	}
 	for i := 0; i < n; i++ {
 		pkg := &Pkg{Dir: perm[i].dir, Name: perm[i].name, Idx: i}
 		g.p.Pkgs = append(g.p.Pkgs, pkg)
 	}
 	for i, pkg := range g.p.Pkgs {
 		g.genPkg(pkg, g.p.Pkgs[:i])
+	}
+	// two imported packages with the same declared name need explicit aliases
+	byName := map[string][]*Pkg{}
+	for _, pkg := range g.p.Pkgs {
+		byName[pkg.Name] = append(byName[pkg.Name], pkg)
+	}
+	for _, same := range byName {
+		if len(same) < 2 {
+			continue
+		}
+		for _, dup := range same {
+			for _, pkg := range g.p.Pkgs {
+				for _, f := range pkg.Files {
+					if f.Aliases[dup] == "" {
+						f.Aliases[dup] = fmt.Sprintf("%s%d", dup.Name, dup.Idx)
+					}
+				}
+			}
+		}
 	}
 	g.p.Render()
 	return g.p
@@ -161,6 +195,72 @@ func (g *gen) genPkg(pkg *Pkg, earlier []*Pkg) {
 		types = append(types, td)
 		decls = g.add(decls, td)
 	}
+	// ---- interfaces and @implements (same-named interfaces of different
+	// packages deliberately have different method sets)
+	if g.has("impl") {
+		// a same-named earlier package that declares an interface: declare the
+		// same interface name here with a different method set
+		var twin *TypeDecl
+		for _, ep := range earlier {
+			if ep.Name == pkg.Name {
+				for _, t := range typesOf(ep) {
+					if t.Kind == KIface {
+						twin = t
+					}
+				}
+			}
+		}
+		if g.chance("declIface", 45) || twin != nil || pkg.Name == "store" {
+			it := &TypeDecl{ID: g.p.NewID(), Pkg: pkg, Kind: KIface, Name: []string{"Repo", "Svc"}[g.pick("ifaceName", 2)]}
+			nm := 1 + (pkg.Idx+g.pick("ifaceMethods", 2))%2
+			if twin != nil {
+				it.Name = twin.Name
+				nm = 3 - len(twin.IfaceMethods)
+			}
+			for k := 0; k < nm; k++ {
+				it.IfaceMethods = append(it.IfaceMethods, fmt.Sprintf("G%d()", k))
+			}
+			types = append(types, it)
+			decls = g.add(decls, it)
+		}
+		var ifaces []*TypeDecl
+		for _, t := range types {
+			if t.Kind == KIface {
+				ifaces = append(ifaces, t)
+			}
+		}
+		for _, ep := range earlier {
+			for _, t := range typesOf(ep) {
+				if t.Kind == KIface {
+					ifaces = append(ifaces, t)
+				}
+			}
+		}
+		for _, td := range types {
+			if td.Kind == KIface || len(ifaces) == 0 || !g.chance("implements", 35) {
+				continue
+			}
+			it := ifaces[g.pick("implIface", len(ifaces))]
+			var twins []*TypeDecl
+			for _, c := range ifaces {
+				for _, o := range ifaces {
+					if c != o && c.Pkg != o.Pkg && c.Pkg.Name == o.Pkg.Name && c.Name == o.Name && c.Pkg != pkg {
+						twins = append(twins, c)
+					}
+				}
+			}
+			if len(twins) > 0 && g.chance("implTwin", 70) {
+				it = twins[g.pick("twinIdx", len(twins))]
+			}
+			td.ImplRefs = append(td.ImplRefs, ImplRef{Ptr: g.chance("implAmp", 50), Iface: it})
+			nm := rapid.IntRange(0, 2).Draw(t, "implMethods")
+			for k := 0; k < nm; k++ {
+				m := &FuncDecl{ID: g.p.NewID(), Name: fmt.Sprintf("G%d", k), Pkg: pkg, done: true, called: true}
+				m.Recv = &Var{Name: "r", Ref: &TypeRef{Type: td, Ptr: g.chance("implRecvPtr", 50)}, ID: m.ID}
+				decls = g.add(decls, m)
+			}
+		}
+	}
 	g.curTypes, g.curEarlier = types, earlier
 	// ---- constructors
 	for _, td := range types {
@@ -188,6 +288,9 @@ func (g *gen) genPkg(pkg *Pkg, earlier []*Pkg) {
 	// ---- methods with annotations (testonly/packageonly) and plain ones
 	var funcs []*FuncDecl
 	for _, td := range types {
+		if td.Kind == KIface {
+			continue
+		}
 		nm := rapid.IntRange(0, 2).Draw(t, "nmethods")
 		for i := 0; i < nm; i++ {
 			fd := g.genFunc(pkg, td, fmt.Sprintf("M%d", i), types, earlier)
@@ -276,7 +379,7 @@ func (g *gen) genPkg(pkg *Pkg, earlier []*Pkg) {
 		for _, f := range files {
 			for _, ep := range earlier {
 				if g.chance("importAlias", 25) {
-					f.Aliases[ep] = "x" + ep.Name
+					f.Aliases[ep] = fmt.Sprintf("x%s%d", ep.Name, ep.Idx)
 				}
 			}
 		}
@@ -534,10 +637,15 @@ func (g *gen) immSite(sc *scope, td *TypeDecl, o *Var) *Site {
 
 // visibleTypes: own types and types of earlier packages.
 func visibleTypes(own []*TypeDecl, earlier []*Pkg) []*TypeDecl {
-	out := append([]*TypeDecl{}, own...)
+	var out []*TypeDecl
+	for _, t := range own {
+		if t.Kind != KIface {
+			out = append(out, t)
+		}
+	}
 	for _, ep := range earlier {
 		for _, t := range typesOf(ep) {
-			if t.Exported() {
+			if t.Exported() && t.Kind != KIface {
 				out = append(out, t)
 			}
 		}
